@@ -24,6 +24,11 @@ pub struct Knobs {
     pub p_via_from: f64,
     pub p_zero_keyframes: f64,
     pub p_empty_merged: f64,
+    /// If non-empty, every float / i32 / u8 value of the run is drawn from this small palette
+    /// (always containing the type default 0), so that exact coincidences - two keyframes with
+    /// equal values, a value equal to the type default, an entry value equal to a timeline's own
+    /// 0% value - are frequent instead of astronomically rare.
+    pub palette: Vec<i32>,
     /// probability that one keyframe of a timeline is split into two keyframes at the same
     /// position defining disjoint sets of properties
     pub p_split_keyframe: f64,
@@ -64,7 +69,7 @@ pub fn gen_knobs(rng: &mut Rng, extreme: bool) -> Knobs {
         p_infinite: *rng.pick(&[0.0, 0.1, 0.3]),
         p_reverse: *rng.pick(&[0.0, 0.3, 0.6]),
         p_merged: *rng.pick(&[0.0, 0.3, 0.6]),
-        max_kfs: *rng.pick(&[1usize, 2, 3, 4, 6]),
+        max_kfs: *rng.pick(&[1usize, 2, 3, 4, 6, 9]),
         p_permute: *rng.pick(&[0.0, 0.5, 1.0]),
         p_prop_in_kf: *rng.pick(&[0.35, 0.6, 0.9]),
         p_kf_easing: *rng.pick(&[0.0, 0.3, 0.7]),
@@ -74,12 +79,24 @@ pub fn gen_knobs(rng: &mut Rng, extreme: bool) -> Knobs {
         p_zero_keyframes: *rng.pick(&[0.0, 0.1]),
         p_empty_merged: *rng.pick(&[0.0, 0.05]),
         p_split_keyframe: *rng.pick(&[0.0, 0.0, 0.2]),
+        palette: if !extreme && rng.chance(0.3) {
+            let mut p = vec![0];
+            for _ in 0..rng.range(1, 3) {
+                p.push(rng.range(-60, 120) as i32);
+            }
+            p
+        } else {
+            Vec::new()
+        },
         extreme,
         narrow_u8,
     }
 }
 
 pub fn gen_f32_value(rng: &mut Rng, k: &Knobs) -> f32 {
+    if !k.palette.is_empty() {
+        return *rng.pick(&k.palette) as f32;
+    }
     if k.extreme && rng.chance(0.15) {
         let sign = if rng.chance(0.5) { -1.0 } else { 1.0 };
         // Values close to the largest finite f32 (and of either sign, so that differences of two
@@ -99,6 +116,9 @@ pub fn gen_f32_value(rng: &mut Rng, k: &Knobs) -> f32 {
 }
 
 pub fn gen_i32_value(rng: &mut Rng, k: &Knobs) -> i32 {
+    if !k.palette.is_empty() {
+        return *rng.pick(&k.palette);
+    }
     if rng.chance(0.1) {
         *rng.pick(&[-(1 << 20), 1 << 20, 0, -1, 1])
     } else if k.value_style == 0 {
@@ -109,6 +129,9 @@ pub fn gen_i32_value(rng: &mut Rng, k: &Knobs) -> i32 {
 }
 
 pub fn gen_u8_value(rng: &mut Rng, k: &Knobs) -> u8 {
+    if !k.palette.is_empty() {
+        return (*rng.pick(&k.palette)).clamp(0, 255) as u8;
+    }
     if k.narrow_u8 {
         rng.range(64, 191) as u8
     } else if rng.chance(0.15) {
